@@ -385,6 +385,14 @@ func genGoMaps(g *G) {
 		}
 		g.emit("goMap", assocArg(ps))
 	}
+	g.in("gomap-pair-count")
+	for _, n := range []int{1000, 1001} {
+		var ps [][2][]byte
+		for i := 0; i < n; i++ {
+			ps = append(ps, [2][]byte{[]byte(fmt.Sprintf("k%04d", i)), {}})
+		}
+		g.emit("goMap", assocArg(ps))
+	}
 	g.in("gomap-limits")
 	// totals around the 65,535-byte limit: n pairs of 255+255 (514 bytes each) plus one filler pair
 	for _, total := range []int{65533, 65534, 65535, 65536, 65537} {
